@@ -19,9 +19,14 @@ package messageview
 //@ ghost var mvNopSrc io.Reader
 //@ ghost var mvNop io.ReadCloser
 
+// mvCLWritten / mvCLValue: a "Content-Length: <n>" line was written into the snapshot, and its value
+//@ ghost var mvCLWritten bool
+//@ ghost var mvCLValue int
 //@ extern func fmt.Fprintf
-//@   modifies as(w, *bytes.Buffer).mvLen, as(w, *bytes.Buffer).mvEndsBlank
+//@   modifies as(w, *bytes.Buffer).mvLen, as(w, *bytes.Buffer).mvEndsBlank, mvCLWritten, mvCLValue
 //@   ensures as(w, *bytes.Buffer).mvLen >= old(as(w, *bytes.Buffer).mvLen) && !as(w, *bytes.Buffer).mvEndsBlank
+//@   ensures format == "Content-Length: %d\r\n" && len(a) == 1 ==> mvCLWritten && mvCLValue == as(a[0], int64)
+//@   ensures format != "Content-Length: %d\r\n" ==> mvCLWritten == old(mvCLWritten) && mvCLValue == old(mvCLValue)
 //@ extern func fmt.Fprint
 //@   modifies as(w, *bytes.Buffer).mvLen, as(w, *bytes.Buffer).mvEndsBlank
 //@   ensures as(w, *bytes.Buffer).mvLen >= old(as(w, *bytes.Buffer).mvLen)
@@ -62,7 +67,9 @@ package messageview
 //@   serves C15
 //@   safe index
 //@   requires mv != nil && req != nil && req.URL != nil
-//@   modifies req.Body, mv.message, mv.chunked, mv.compress, mv.bodyoffset, mv.traileroffset, mvReadSrc, mvReadData, mvReaderData, mvReader, mvNopSrc, mvNop
+//@   modifies req.Body, mv.message, mv.chunked, mv.compress, mv.bodyoffset, mv.traileroffset, mvReadSrc, mvReadData, mvReaderData, mvReader, mvNopSrc, mvNop, mvCLWritten, mvCLValue
+//@   at entry 0 before set mvCLWritten = false
+//@   ensures[a-known-length-is-written-as-content-length-also-when-it-is-zero; C15] result == nil && !mv.chunked && req.ContentLength >= 0 ==> mvCLWritten && mvCLValue == req.ContentLength
 //@   ensures[offsets-ordered] result == nil ==> 0 <= mv.bodyoffset && mv.bodyoffset <= mv.traileroffset && mv.traileroffset <= len(mv.message)
 //@   ensures[untouched-body-keeps-its-handle] result == nil && mv.traileroffset == mv.bodyoffset && old(req.Body) == nil ==> req.Body == old(req.Body)
 //@   ensures[chunked-recorded-from-the-last-transfer-coding; C15 C16] (len(req.TransferEncoding) > 0 ==> mv.chunked == (req.TransferEncoding[len(req.TransferEncoding) - 1] == "chunked")) &&
@@ -74,7 +81,10 @@ package messageview
 //@   serves C15
 //@   safe index
 //@   requires mv != nil && res != nil
-//@   modifies res.Body, mv.message, mv.chunked, mv.compress, mv.bodyoffset, mv.traileroffset, mvReadSrc, mvReadData, mvReaderData, mvReader, mvNopSrc, mvNop
+//@   modifies res.Body, mv.message, mv.chunked, mv.compress, mv.bodyoffset, mv.traileroffset, mvReadSrc, mvReadData, mvReaderData, mvReader, mvNopSrc, mvNop, mvCLWritten, mvCLValue
+//@   at entry 0 before set mvCLWritten = false
+//@   ensures[a-known-length-is-written-as-content-length-also-when-it-is-zero; C15] result == nil && !mv.chunked && res.ContentLength >= 0 ==> mvCLWritten && mvCLValue == res.ContentLength
+//@   ensures[no-decoding-of-bodiless-or-partial-content; C15 C16] result == nil && (res.StatusCode == 204 || res.StatusCode == 206) ==> mv.compress == ""
 //@   ensures[offsets-ordered] result == nil ==> 0 <= mv.bodyoffset && mv.bodyoffset <= mv.traileroffset && mv.traileroffset <= len(mv.message)
 //@   ensures[replaced-body-reads-the-bytes-of-the-old-one] res.Body != old(res.Body) ==> res.Body == mvNop && mvNopSrc == iface(mvReader) && mvReaderData == mvReadData && mvReadSrc == old(res.Body)
 //@   at call 1 of Bytes before assert[chunked-message-ends-with-the-blank-line] mv.chunked ==> buf.mvEndsBlank
